@@ -145,7 +145,9 @@ CHECKS = {
              "events returns exactly the documented list (events inside [t_min, t_max] in order, t_min / t_max added "
              "with the synthetic labels exactly when missing; one-sided versions; range, order, both bounds present; "
              "IndexError cases), boundaries<->intervals are "
-             "mutually inverse on 5-decimal-exact contiguous segmentations; exhaustive small-scope correspondence in "
+             "mutually inverse on 5-decimal-exact contiguous segmentations and, for other times, return the 5-decimal "
+             "rounding of the input whenever rounding keeps the boundaries apart (b2i_i2b_rounded, i2b_b2i_rounded); "
+             "exhaustive small-scope correspondence in "
              "the thorough tier.",
         note="Repaired: zero-length intervals when an interval ends exactly at t_min / starts at t_max. Known findings that remain "
              "(full statements refuted in Lean, partial theorems proved): all intervals before t_min collapse to zero "
@@ -179,7 +181,9 @@ CHECKS = {
              "(chain rule MI = H(est) - H(est|ref)), gammaln(k+1) = log k!, the AMI triple loop is the hypergeometric "
              "expectation sum (k/n) log(nk/(ab)) C(a,k)C(n-a,b-k)/C(n,b) over the whole support, the weights summing to 1 "
              "(hypergeometric_weights_sum_one, emi_is_hypergeometric_expectation), and AMI = (MI-EMI)/(max(H,H')-EMI), with "
-             "the one-cluster/empty early returns; labels are compared case-insensitively; exact correspondence for the rational "
+             "the one-cluster/empty early returns; labels are compared case-insensitively; the frame sampler is the annotation's "
+             "half-open denotation at the frame times, on annotations with gaps completed by the label of a row ending "
+             "exactly there (frames_with_gaps); exact correspondence for the rational "
              "indices, 1e-9 for the transcendental ones; thorough tier enumerates all pairs of restricted-growth "
              "label sequences up to 8 frames.",
         note="The textbook forms are over the reals (the Real instance of the model's Transc class); the executed "
